@@ -351,6 +351,12 @@ func replayDagGraph(c *Ctx, run *ev.Run, g *dagGraph, nAccepted, nRejected, nSta
 			atomic.AddInt64(nStates, 1)
 			return
 		}
+		// quick tier: the out-edges of a seeded half of the deepest states (every state with fewer nodes completely;
+		// the thorough tier and the other seeds cover the rest)
+		if !c.thorough() && si.st.NN >= 3 && (ki+int(c.Seed))%2 != 0 {
+			atomic.AddInt64(nStates, 1)
+			return
+		}
 		for _, ei := range si.out {
 			e := g.edges[ei]
 			s := w.sess()
@@ -414,7 +420,9 @@ func checkC07(c *Ctx) int {
 	nTr, nEv := runKVTraces(c, run, c.pick(60, 400), c.pick(50, 80), c.pick(12, 16), false, "")
 	run.Set("random_traces_validated_by_tlc", nTr)
 	run.Set("random_trace_events", nEv)
-	run.Set("traces_validated_against_impl", nAccepted+nRejected+int64(nTr))
+	// second round: make-master / hide-branch / addressing, resolve, sync wiring (c07_growth.go)
+	nGrowth := c07Growth(c, run)
+	run.Set("traces_validated_against_impl", nAccepted+nRejected+int64(nTr)+nGrowth)
 	run.Set("accepted_edges_replayed", nAccepted)
 	run.Set("refused_requests_replayed", nRejected)
 	run.Set("rule", "one case = one transition of the TLC state graph (accepted request) or one refused request of the argument domain at a reachable state, replayed on the real server with the projected DAG, heads and identifier maps compared before and after; distinct = distinct (state, request)")
